@@ -653,22 +653,79 @@ func stFreeMarkerString(recipient string, tokens float64, nonce int64, blobbers 
 	return fmt.Sprintf("%s:%f:%d:%s", recipient, tokens, nonce, ids)
 }
 
-func stFreeAlloc(h *Hist, r *mon.Rand) *Call {
-	st := h.S.St
-	conf := h.stConf()
-	var regd []*stAssigner
-	for _, as := range st.Assigners {
-		if as.Reg {
-			regd = append(regd, as)
+// frRedeemed is one redeemed free-storage marker as the generator sent it.
+type frRedeemed struct {
+	Nonce int64
+	Coin  uint64
+	Raw   []byte // exact input bytes of the accepted free_allocation_request
+	By    *world.Wallet
+}
+
+// frState is the generator's memory per assigner: every redeemed marker in redemption order, and the nonces it handed out.
+type frState struct {
+	Redeemed []*frRedeemed
+	Issued   map[int64]bool
+	Down     int64 // next value of a strictly decreasing nonce series
+}
+
+func frStateOf(h *Hist, as *stAssigner) *frState {
+	m, _ := h.Vars["frState"].(map[*stAssigner]*frState)
+	if m == nil {
+		m = map[*stAssigner]*frState{}
+		h.Vars["frState"] = m
+	}
+	if m[as] == nil {
+		m[as] = &frState{Issued: map[int64]bool{}, Down: 1 << 40}
+	}
+	return m[as]
+}
+
+// frNonce hands out a fresh nonce in NO particular order: small counters, a middle range, large values, second / millisecond
+// timestamps around the logical clock, a strictly decreasing series, now and then zero or a negative value.
+func frNonce(h *Hist, r *mon.Rand, as *stAssigner, kind int) int64 {
+	fs := frStateOf(h, as)
+	now := int64(h.W.Now)
+	for try := 0; try < 40; try++ {
+		k := kind
+		if k < 0 || try > 0 {
+			k = r.Intn(8)
+		}
+		var n int64
+		switch k {
+		case 0:
+			n = 1 + int64(r.Intn(60)) // low
+		case 1:
+			n = 1000 + int64(r.Intn(9000)) // middle
+		case 2:
+			n = 1000000 - int64(r.Intn(5000)) // high
+		case 3:
+			n = now - int64(r.Intn(200000)) // a timestamp in seconds, issued out of order
+		case 4:
+			n = now*1000 + int64(r.Intn(1000)) - int64(r.Intn(3))*86400000 // a timestamp in milliseconds
+		case 5:
+			fs.Down -= 1 + int64(r.Intn(1000))
+			n = fs.Down
+		case 6:
+			n = as.Next // the plain counter
+			as.Next++
+		case 7:
+			n = []int64{0, -1, -int64(r.Intn(100000)), 1<<62 + int64(r.Intn(1000))}[r.Intn(4)]
+		}
+		if !as.Used[n] && !fs.Issued[n] {
+			fs.Issued[n] = true
+			return n
 		}
 	}
-	if len(regd) == 0 {
-		return stAddAssigner(h, r)
-	}
-	as := regd[r.Intn(len(regd))]
-	recipient := h.stClient(r)
-	sender := recipient
-	// blobbers inside the free-allocation price ranges
+	n := as.Next + 1<<32
+	as.Next++
+	return n
+}
+
+// frBlobbers picks the blobbers of a free allocation: inside the free-allocation price ranges if there are enough of them
+// (ok), otherwise filled up with others (the request fails late, in blobber validation).
+func frBlobbers(h *Hist, r *mon.Rand) (ids []string, ok bool) {
+	st := h.S.St
+	conf := h.stConf()
 	var fit []*stProv
 	for _, p := range h.stUsableFirst(r, st.live(st.Blobbers), stBSize(conf.Free.Size, conf.Free.DataShards)) {
 		t := h.stTermsOf(p)
@@ -683,10 +740,8 @@ func stFreeAlloc(h *Hist, r *mon.Rand) *Call {
 	if len(fit) > need {
 		fit = fit[:need]
 	}
-	if len(fit) < need && r.Chance(0.6) {
-		return stNewAlloc(h, r)
-	}
-	if len(fit) < need { // fill up with others: the request will fail late, in blobber validation
+	ok = len(fit) >= need
+	if !ok {
 		for _, p := range st.live(st.Blobbers) {
 			dup := false
 			for _, q := range fit {
@@ -697,85 +752,51 @@ func stFreeAlloc(h *Hist, r *mon.Rand) *Call {
 			}
 		}
 	}
-	blobbers := stIDs(fit)
-	tokens := []float64{0.01, 0.05, 0.1, 0.5, 1, 2.5, 5}[r.Intn(7)]
-	if uint64(tokens*1e10) > as.Indiv || as.Redeemed+uint64(tokens*1e10) > as.Total {
-		if r.Chance(0.7) { // keep most markers inside the limits
-			tokens = 0.01
-		}
-	}
-	nonce := as.Next
-	as.Next++
-	signer := as.W
-	assignerName := as.W.ID
-	mut := ""
-	var replay []byte
-	if h.stHostile(r, 1.0) {
-		switch r.Intn(9) {
-		case 0:
-			mut = "other-recipient"
-			sender = h.stClient(r)
-			if sender == recipient {
-				sender = h.W.Owner
-			}
-		case 1:
-			mut = "over-individual-limit"
-			tokens = float64(as.Indiv)/1e10 + []float64{0.000001, 1, 50}[r.Intn(3)]
-		case 2:
-			for n := int64(1); n < as.Next-1; n++ { // the smallest nonce already redeemed
-				if as.Used[n] {
-					mut, nonce = "reused-nonce", n
-					break
-				}
-			}
-		case 3:
-			mut = "forged-signature"
-			signer = h.stClient(r)
-		case 4:
-			mut = "unknown-assigner"
-			assignerName = stHash("no-such-assigner")
-		case 5:
-			mut = "over-total-limit"
-			if as.Total > as.Redeemed {
-				tokens = float64(as.Total-as.Redeemed)/1e10 + 0.5
-			}
-		case 6:
-			if as.LastRaw != nil {
-				mut = "replay"
-				replay = as.LastRaw
-				sender = as.LastBy
-			}
-		case 7:
-			mut = "tokens-negative"
-			tokens = -1
-		case 8:
-			mut = "tokens-11-decimals"
-			tokens = 0.00000000001
-		}
-	}
+	return stIDs(fit), ok
+}
+
+// frSpec is one free_allocation_request as it goes on the wire.
+type frSpec struct {
+	As                        *stAssigner
+	AssignerName              string
+	Recipient, Sender, Signer *world.Wallet
+	Tokens                    float64
+	Nonce                     int64
+	Blobbers                  []string
+	Mut                       string
+	GarbageSig                bool
+	Replay                    *frRedeemed // byte-identical resubmission of a redeemed request
+}
+
+func frBuildCall(h *Hist, r *mon.Rand, s *frSpec) *Call {
+	as := s.As
 	coin := uint64(0)
-	if tokens > 0 {
-		coin = uint64(math.Round(tokens * 1e10))
+	if s.Tokens > 0 {
+		coin = uint64(math.Round(s.Tokens * 1e10))
 	}
-	sig := signer.Sign(hex.EncodeToString([]byte(stFreeMarkerString(recipient.ID, tokens, nonce, blobbers))))
-	if mut == "forged-signature" && r.Chance(0.5) {
+	sig := s.Signer.Sign(hex.EncodeToString([]byte(stFreeMarkerString(s.Recipient.ID, s.Tokens, s.Nonce, s.Blobbers))))
+	if s.GarbageSig {
 		sig = stHash("not-a-signature") + stHash("at-all")
 	}
-	marker, _ := json.Marshal(map[string]interface{}{"assigner": assignerName, "recipient": recipient.ID, "free_tokens": tokens, "nonce": nonce, "signature": sig, "blobbers": blobbers})
-	in := map[string]interface{}{"recipient_public_key": recipient.PubKey, "marker": string(marker), "blobbers": blobbers}
-	c := stCall(h, r, "free_allocation_request", sender, in, 0)
+	marker, _ := json.Marshal(map[string]interface{}{"assigner": s.AssignerName, "recipient": s.Recipient.ID, "free_tokens": s.Tokens, "nonce": s.Nonce, "signature": sig, "blobbers": s.Blobbers})
+	in := map[string]interface{}{"recipient_public_key": s.Recipient.PubKey, "marker": string(marker), "blobbers": s.Blobbers}
+	c := stCall(h, r, "free_allocation_request", s.Sender, in, 0)
+	nonce := s.Nonce
+	replay := s.Replay
 	if replay != nil {
-		c.Spec.RawInput = replay
-		nonce = -1
+		c.Spec.RawInput = replay.Raw
+		nonce, coin = replay.Nonce, replay.Coin
 	}
-	c.Mut = mut
-	valid := replay == nil && sender == recipient && signer == as.W && assignerName == as.W.ID && as.Reg && !as.Used[nonce] && tokens > 0 &&
+	c.Mut = s.Mut
+	// a marker is good for one redemption: a replayed input and a re-signed marker with a used nonce are never valid
+	valid := replay == nil && s.Sender == s.Recipient && s.Signer == as.W && !s.GarbageSig && s.AssignerName == as.W.ID && as.Reg && !as.Used[nonce] && s.Tokens > 0 &&
 		coin <= as.Indiv && as.Redeemed+coin <= as.Total
 	c.Meta["free_marker_valid"] = valid
-	c.Meta["assigner"], c.Meta["recipient"], c.Meta["blobbers"] = assignerName, recipient.ID, blobbers
-	c.Meta["marker"] = map[string]interface{}{"nonce": nonce, "tokens": coin, "signer": signer.ID, "client": recipient.ID, "sender": sender.ID,
-		"individual_limit": as.Indiv, "total_limit": as.Total, "redeemed": as.Redeemed}
+	c.Meta["assigner"], c.Meta["recipient"], c.Meta["blobbers"] = s.AssignerName, s.Recipient.ID, s.Blobbers
+	c.Meta["marker"] = map[string]interface{}{"nonce": nonce, "tokens": coin, "signer": s.Signer.ID, "client": s.Recipient.ID, "sender": s.Sender.ID,
+		"individual_limit": as.Indiv, "total_limit": as.Total, "redeemed": as.Redeemed, "replay": replay != nil, "nonce_used_before": as.Used[nonce]}
 	raw := stFreeze(c)
+	recipient, sender := s.Recipient, s.Sender
 	c.After = func(h *Hist, o *TxnObs) {
 		if o.Outcome != "success" {
 			return
@@ -789,13 +810,285 @@ func stFreeAlloc(h *Hist, r *mon.Rand) *Call {
 		}
 		o.Call.Meta["alloc"] = id
 		h.stRegisterAlloc(id, recipient, true)
+		as.Redeemed += coin // the contract adds the marker's tokens on every accepted redemption
 		if replay == nil {
+			first := !as.Used[nonce]
 			as.Used[nonce] = true
-			as.Redeemed += coin
 			as.LastRaw, as.LastBy = raw, sender
+			if fs := frStateOf(h, as); first && len(fs.Redeemed) < 64 {
+				fs.Redeemed = append(fs.Redeemed, &frRedeemed{Nonce: nonce, Coin: coin, Raw: raw, By: sender})
+			}
 		}
 	}
 	return c
+}
+
+func stFreeAlloc(h *Hist, r *mon.Rand) *Call {
+	st := h.S.St
+	var regd []*stAssigner
+	for _, as := range st.Assigners {
+		if as.Reg {
+			regd = append(regd, as)
+		}
+	}
+	if len(regd) == 0 {
+		return stAddAssigner(h, r)
+	}
+	as := regd[r.Intn(len(regd))]
+	fs := frStateOf(h, as)
+	recipient := h.stClient(r)
+	blobbers, ok := frBlobbers(h, r)
+	if !ok && r.Chance(0.6) {
+		return stNewAlloc(h, r)
+	}
+	tokens := []float64{0.01, 0.05, 0.1, 0.5, 1, 2.5, 5}[r.Intn(7)]
+	if uint64(tokens*1e10) > as.Indiv || as.Redeemed+uint64(tokens*1e10) > as.Total {
+		if r.Chance(0.7) { // keep most markers inside the limits
+			tokens = 0.01
+		}
+	}
+	s := &frSpec{As: as, AssignerName: as.W.ID, Recipient: recipient, Sender: recipient, Signer: as.W, Tokens: tokens, Blobbers: blobbers}
+	s.Nonce = frNonce(h, r, as, -1)
+	if h.stHostile(r, 1.0) {
+		switch r.Intn(14) {
+		case 0:
+			s.Mut = "other-recipient"
+			s.Sender = h.stClient(r)
+			if s.Sender == recipient {
+				s.Sender = h.W.Owner
+			}
+		case 1:
+			s.Mut = "over-individual-limit"
+			s.Tokens = float64(as.Indiv)/1e10 + []float64{0.000001, 1, 50}[r.Intn(3)]
+		case 2, 3:
+			if n := len(fs.Redeemed); n > 0 { // a freshly signed marker (other recipient / tokens / blobbers) carrying ANY used nonce
+				s.Mut, s.Nonce = "reused-nonce", fs.Redeemed[r.Intn(n)].Nonce
+			}
+		case 4:
+			s.Mut = "forged-signature"
+			s.Signer = h.stClient(r)
+			s.GarbageSig = r.Chance(0.5)
+		case 5:
+			s.Mut = "unknown-assigner"
+			s.AssignerName = stHash("no-such-assigner")
+		case 6:
+			s.Mut = "over-total-limit"
+			if as.Total > as.Redeemed {
+				s.Tokens = float64(as.Total-as.Redeemed)/1e10 + 0.5
+			}
+		case 7, 8, 9:
+			if n := len(fs.Redeemed); n > 0 { // ANY redeemed request again, byte for byte, by its original sender
+				s.Mut, s.Replay = "replay", fs.Redeemed[r.Intn(n)]
+				s.Sender = s.Replay.By
+			}
+		case 10:
+			if n := len(fs.Redeemed); n > 0 { // the redeemed request of somebody else
+				s.Mut, s.Replay = "replay-by-other-sender", fs.Redeemed[r.Intn(n)]
+				s.Sender = h.stClient(r)
+			}
+		case 11:
+			s.Mut = "tokens-negative"
+			s.Tokens = -1
+		case 12:
+			s.Mut = "tokens-11-decimals"
+			s.Tokens = 0.00000000001
+		case 13:
+			for _, other := range regd { // a nonce another assigner already redeemed: nonces are per assigner, this marker is fine
+				if of := frStateOf(h, other); other != as && len(of.Redeemed) > 0 {
+					if n := of.Redeemed[r.Intn(len(of.Redeemed))].Nonce; !as.Used[n] {
+						s.Nonce = n
+					}
+				}
+			}
+		}
+	}
+	return frBuildCall(h, r, s)
+}
+
+// frWire is a free-storage marker as the transaction input carries it (decoded by the monitor itself).
+type frWire struct {
+	Assigner   string   `json:"assigner"`
+	Recipient  string   `json:"recipient"`
+	FreeTokens float64  `json:"free_tokens"`
+	Nonce      int64    `json:"nonce"`
+	Signature  string   `json:"signature"`
+	Blobbers   []string `json:"blobbers"`
+}
+
+// frDecode extracts the marker of a free_allocation_request input.
+func frDecode(input []byte) *frWire {
+	var in struct {
+		Marker string `json:"marker"`
+	}
+	if json.Unmarshal(input, &in) != nil {
+		return nil
+	}
+	m := &frWire{}
+	if json.Unmarshal([]byte(in.Marker), m) != nil {
+		return nil
+	}
+	return m
+}
+
+// frModel is the monitor's own reference: per assigner name the public key of its last successful registration, the set of
+// nonces of the markers it saw redeemed, and their redemption order.
+type frModel struct {
+	Key    map[string]string
+	Nonces map[string]map[int64]bool
+	Order  map[string][]int64
+}
+
+func frModelOf(h *Hist) *frModel {
+	m, _ := h.Vars["frC24"].(*frModel)
+	if m == nil {
+		m = &frModel{Key: map[string]string{}, Nonces: map[string]map[int64]bool{}, Order: map[string][]int64{}}
+		h.Vars["frC24"] = m
+	}
+	return m
+}
+
+// outOfOrder tells whether the assigner's markers were redeemed in an order other than increasing nonce.
+func (m *frModel) outOfOrder(assigner string) bool {
+	o := m.Order[assigner]
+	for i := 1; i < len(o); i++ {
+		if o[i] < o[i-1] {
+			return true
+		}
+	}
+	return false
+}
+
+// frSignedByKey: does the marker's signature verify under public key pub? known = the harness owns a wallet with that key.
+func frSignedByKey(h *Hist, pub string, m *frWire) (known, ok bool) {
+	for _, w := range h.W.Wallets {
+		if w.PubKey != pub {
+			continue
+		}
+		func() {
+			defer func() { _ = recover() }()
+			v, err := w.Scheme.Verify(m.Signature, hex.EncodeToString([]byte(stFreeMarkerString(m.Recipient, m.FreeTokens, m.Nonce, m.Blobbers))))
+			ok = v && err == nil
+		}()
+		return true, ok
+	}
+	return false, false
+}
+
+// ---- directed scenario (C24, C04): redemptions OUT OF nonce order, then every redeemed marker again ------------------------------------
+
+func init() {
+	RegisterScenario(Scenario{Prop: "C24", Name: "free-markers-out-of-order-then-replayed", Every: 1, Fn: frScenario})
+	RegisterScenario(Scenario{Prop: "C04", Name: "free-markers-out-of-order-then-replayed", Every: 1, Fn: frScenario})
+}
+
+// frScenario: one assigner's markers are redeemed in non-monotonic nonce order (high, low, middle, timestamps, a decreasing
+// series), then EVERY redeemed request is sent again byte for byte, markers with used nonces are signed afresh, a fresh
+// marker is redeemed and the replays are repeated. A second assigner reuses the first one's nonces (allowed: once per
+// assigner). Every step is an ordinary free_allocation_request transaction.
+func frScenario(h *Hist, mons []Monitor) {
+	st := h.S.St
+	r := h.R.Fork("fr-scenario")
+	st.NoHostile = true
+	defer func() { st.NoHostile = false }()
+	var regd []*stAssigner
+	for _, as := range st.Assigners {
+		if as.Reg {
+			regd = append(regd, as)
+		}
+	}
+	if len(regd) < 2 {
+		nas := &stAssigner{W: h.stWallet(fmt.Sprintf("assigner%d", st.next())), Used: map[int64]bool{}, Next: 1}
+		st.Assigners = append(st.Assigners, nas)
+		c := stCall(h, r, "add_free_storage_assigner", h.W.Owner, map[string]interface{}{"name": nas.W.ID, "public_key": nas.W.PubKey, "individual_limit": 20.0, "total_limit": 500.0}, 0)
+		c.Meta["assigner"] = nas.W.ID
+		if o := h.stInner(c); o.Outcome == "success" {
+			nas.Reg, nas.Indiv, nas.Total = true, 20e10, 500e10
+			regd = append(regd, nas)
+		}
+	}
+	if len(regd) == 0 {
+		return
+	}
+	as := regd[r.Intn(len(regd))]
+	fs := frStateOf(h, as)
+	run := h.Runs[h.Focus]
+	count := func(what string, o *TxnObs) {
+		if run != nil {
+			run.Count("scenario_free_request:"+what+"|"+o.Outcome, 1)
+		}
+	}
+	redeem := func(as *stAssigner, nonce int64, mut string) *TxnObs {
+		blobbers, _ := frBlobbers(h, r)
+		recipient := h.stClient(r)
+		tokens := []float64{0.01, 0.02, 0.05, 0.1}[r.Intn(4)]
+		if uint64(tokens*1e10) > as.Indiv {
+			tokens = float64(as.Indiv) / 1e10
+		}
+		c := frBuildCall(h, r, &frSpec{As: as, AssignerName: as.W.ID, Recipient: recipient, Sender: recipient, Signer: as.W, Tokens: tokens, Nonce: nonce, Blobbers: blobbers, Mut: mut})
+		c.Meta["scenario"] = "fr"
+		o := h.stInner(c)
+		what := mut
+		if what == "" {
+			what = "fresh"
+		}
+		count(what, o)
+		if r.Chance(0.4) {
+			h.stNextBlock(r, 5)
+		}
+		return o
+	}
+	replay := func(as *stAssigner, rd *frRedeemed) {
+		c := frBuildCall(h, r, &frSpec{As: as, AssignerName: as.W.ID, Recipient: rd.By, Sender: rd.By, Signer: as.W, Tokens: 0.01, Nonce: rd.Nonce, Mut: "replay", Replay: rd})
+		c.Meta["scenario"] = "fr"
+		count("replay", h.stInner(c))
+		if r.Chance(0.3) {
+			h.stNextBlock(r, 5)
+		}
+	}
+	// (1) redemptions in non-monotonic nonce order
+	kinds := [][]int{{2, 0, 1, 3, 4}, {3, 2, 0, 1}, {5, 5, 5, 5}, {4, 3, 1, 0, 2}, {2, 1, 0, 5, 3}, {0, 2, 1, 6, 3}}[r.Intn(6)]
+	ok := 0
+	for i, k := range kinds {
+		if o := redeem(as, frNonce(h, r, as, k), ""); o.Outcome == "success" {
+			ok++
+		} else if i == 0 {
+			return // free allocations cannot be created in this history (settings / blobbers): nothing to replay
+		}
+	}
+	h.stNextBlock(r, 30)
+	// (2) every redeemed request again, in random order; used nonces signed afresh
+	again := func() {
+		rs := append([]*frRedeemed{}, fs.Redeemed...)
+		r.Shuffle(len(rs), func(i, j int) { rs[i], rs[j] = rs[j], rs[i] })
+		if len(rs) > 6 {
+			rs = rs[:6]
+		}
+		for _, rd := range rs {
+			replay(as, rd)
+		}
+	}
+	again()
+	for i := 0; i < 2 && len(fs.Redeemed) > 0; i++ {
+		redeem(as, fs.Redeemed[r.Intn(len(fs.Redeemed))].Nonce, "reused-nonce")
+	}
+	// (3) the other assigner redeems a nonce the first one used (fine), then that one is replayed too
+	for _, other := range regd {
+		if other != as && len(fs.Redeemed) > 0 {
+			n := fs.Redeemed[r.Intn(len(fs.Redeemed))].Nonce
+			if !other.Used[n] {
+				if o := redeem(other, n, ""); o.Outcome == "success" {
+					if of := frStateOf(h, other); len(of.Redeemed) > 0 {
+						replay(other, of.Redeemed[len(of.Redeemed)-1])
+					}
+				}
+			}
+			break
+		}
+	}
+	// (4) a fresh marker below / between the redeemed ones, then the replays once more
+	redeem(as, frNonce(h, r, as, []int{0, 1, 5}[r.Intn(3)]), "")
+	again()
+	h.EndBlock()
 }
 
 // ---- logical time -----------------------------------------------------------------------------------------------------------
